@@ -32,6 +32,8 @@ RULE = ("one run = a seeded operation list over a pool of trees: parse(program w
         "one copy operation on a tree followed by a comparison; distinct = distinct event-log "
         "digest")
 ASSUMPTIONS = [
+    "pickle protocols 2-5 and the default are used; protocols 0 and 1 cannot carry "
+    "__getnewargs__ (nor an io.StringIO) and are outside what the property states",
     "structure = class names, leaf strings, labels and construct names of every node; text = "
     "str(tree); repr compared with synthetic block:N names renumbered",
     "a C10 defect already present in the original is not charged to the copy",
@@ -43,7 +45,8 @@ COMPONENTS = {
     "stub": ["file system (SimFS) for file readers", "the disk (bytes in the op log)",
              "process restart (pristine forked process with its own history)"],
 }
-PROBES = ["mutated_label_or_name_of_copy", "copied_tree_with_Comment", "copied_tree_with_Directive", "copied_tree_with_Include_Stmt",
+PROBES = ["load_in_fresh_interpreter_other_hashseed", "tree_from_resolved_include_copied",
+          "mutated_label_or_name_of_copy", "copied_tree_with_Comment", "copied_tree_with_Directive", "copied_tree_with_Include_Stmt",
           "copied_tree_with_Cpp", "load_under_other_std_registry", "load_with_no_parser_created",
           "mutate_then_compare_pool_ge3", "file_reader_tree_copied", "restart_load_done",
           "copy_of_copy"]
@@ -85,7 +88,22 @@ def generate(run_seed, cfg):
         fixed = []
         for ln in out:
             fixed.append(ln.lstrip() if ln.lstrip().startswith("#") else ln)
-        programs["p%d" % k] = {"text": "\n".join(fixed), "std": std}
+        prog = {"text": "\n".join(fixed), "std": std}
+        if sw.random() < 0.25:
+            # move one line that is no continuation into an include file that *does* resolve:
+            # the statements of that line then refer to a nested FortranFileReader
+            cand = [i for i, ln in enumerate(fixed)
+                    if ln.strip() and not ln.lstrip().startswith(("#", "!")) and
+                    not ln.split("!")[0].rstrip().endswith("&") and
+                    not (i > 0 and fixed[i - 1].split("!")[0].rstrip().endswith("&")) and
+                    "include" not in ln.lower()]
+            if cand:
+                i = cand[sw.randrange(len(cand))]
+                prog["inc"] = {"frag_%d.inc" % k: fixed[i] + "\n"}
+                fixed2 = list(fixed)
+                fixed2[i] = " include 'frag_%d.inc'" % k
+                prog["text"] = "\n".join(fixed2)
+        programs["p%d" % k] = prog
     ops = []
     ntrees = 0
     ndisk = 0
@@ -107,14 +125,16 @@ def generate(run_seed, cfg):
             ops.append(["deepcopy", sw.randrange(ntrees)])
             ntrees += 1
         elif r < 0.58:
-            ops.append(["pickle", sw.randrange(ntrees)])
+            ops.append(["pickle", sw.randrange(ntrees), sw.choice([2, 3, 4, 5, None, None])])
             ntrees += 1
         elif r < 0.70:
-            ops.append(["dump", sw.randrange(ntrees)])
+            ops.append(["dump", sw.randrange(ntrees), sw.choice([2, 3, 4, 5, None, None])])
             ndisk += 1
         elif r < 0.82 and ndisk:
             ops.append(["restart_load", sw.randrange(ndisk),
-                        sw.choice(["none", "create_other", "create_same", "parse_unrelated"])])
+                        sw.choice(["none", "create_other", "create_same", "parse_unrelated"] +
+                                  (["fresh_interpreter"] if sw.random() < 0.12 else [])),
+                        sw.randrange(1, 10000)])
         elif r < 0.95:
             ops.append(["mutate", sw.randrange(ntrees),
                         sw.choice(["rename", "delete_stmt", "swap_children", "append_stmt",
@@ -177,6 +197,29 @@ def _restart_child(req):
     return {"snap": snap, "wellformed": fp.wellformed(tree)}
 
 
+def _fresh_interpreter_load(data, hashseed):
+    """loads() in a new interpreter under another PYTHONHASHSEED: nothing but the bytes and
+    the code is shared with the process that produced them."""
+    import json
+    import subprocess
+
+    from ..kit import target
+
+    code = ("import sys, json, base64; sys.path.insert(0, '/verif'); "
+            "from sim.kit import target; target.load(); "
+            "from sim.props import c18; "
+            "req = json.loads(sys.stdin.read()); "
+            "print('RESULT ' + json.dumps(c18._restart_child(req)))")
+    env = dict(os.environ, PYTHONHASHSEED=str(hashseed), VERIF_REPO_SRC=target.repo_src())
+    proc = subprocess.run([sys.executable, "-c", code], input=json.dumps(
+        {"data": base64.b64encode(data).decode(), "history": "none", "std": "f2003"}),
+        capture_output=True, text=True, env=env, timeout=120, cwd="/verif")
+    line = [ln for ln in proc.stdout.split("\n") if ln.startswith("RESULT ")]
+    if not line:
+        return {"status": forkrun.STATUS_CRASH, "error": proc.stderr[-500:]}
+    return {"status": forkrun.STATUS_OK, "value": json.loads(line[0][7:])}
+
+
 def execute(case):
     stats = host.new_stats()
     events = []
@@ -191,6 +234,9 @@ def execute(case):
 
     server = forkrun.PristineServer(_restart_child, timeout=60.0)  # while still pristine
     image = {"%s.f90" % k: v["text"].encode("utf-8") for k, v in case["programs"].items()}
+    for v in case["programs"].values():
+        for nm, frag in (v.get("inc") or {}).items():
+            image[nm] = frag.encode("utf-8")
     fs = host.SimFS(image, {}, stats).install("c18-%d" % os.getpid())
     host.install_log_counter()
     pool = []   # entries: dict(tree, snap, ids, wf, origin, kind, std, classes) or None (hole)
@@ -212,6 +258,8 @@ def execute(case):
             probe("copied_tree_with_Cpp")
         if entry["kind"] == "file":
             probe("file_reader_tree_copied")
+        if entry.get("has_inc"):
+            probe("tree_from_resolved_include_copied")
         if entry["origin"] != "parse":
             probe("copy_of_copy")
 
@@ -257,7 +305,8 @@ def execute(case):
         if extra:
             violate("C18.e copy-not-well-formed", "%s/%s" % (how, ",".join(extra)), {"op": op})
         pool.append({"tree": tree, "snap": snap, "ids": ids, "wf": wf, "origin": how,
-                     "kind": src["kind"], "std": src["std"], "classes": src["classes"]})
+                     "kind": src["kind"], "std": src["std"], "classes": src["classes"],
+                     "has_inc": src.get("has_inc")})
 
     try:
         for k, op in enumerate(case["ops"]):
@@ -279,7 +328,8 @@ def execute(case):
                     continue
                 pool.append({"tree": tree, "snap": snapshot(tree), "ids": fp.node_ids(tree),
                              "wf": fp.wellformed(tree), "origin": "parse", "kind": op[3],
-                             "std": cur_std, "classes": fp.node_classes(tree)})
+                             "std": cur_std, "classes": fp.node_classes(tree),
+                             "has_inc": bool(prog.get("inc"))})
                 state_keys.add(("classes", tuple(pool[-1]["classes"][:40]), op[3]))
             elif op[0] in ("deepcopy", "pickle"):
                 idx = op[1]
@@ -292,7 +342,8 @@ def execute(case):
                     if op[0] == "deepcopy":
                         new = copy.deepcopy(pool[idx]["tree"])
                     else:
-                        new = pickle.loads(pickle.dumps(pool[idx]["tree"]))
+                        proto = op[2] if len(op) > 2 else None
+                        new = pickle.loads(pickle.dumps(pool[idx]["tree"], protocol=proto))
                 except BaseException as err:  # noqa: B902
                     if isinstance(err, (KeyboardInterrupt, MemoryError)):
                         raise
@@ -314,7 +365,8 @@ def execute(case):
                     continue
                 classes_probe(pool[idx])
                 try:
-                    data = pickle.dumps(pool[idx]["tree"])
+                    data = pickle.dumps(pool[idx]["tree"],
+                                        protocol=op[2] if len(op) > 2 else None)
                     disk.append((data, idx, pool[idx]["std"], dict(pool[idx]["snap"]),
                                  list(pool[idx]["wf"])))
                     events.append(["dump", idx, len(data) > 0])
@@ -330,8 +382,12 @@ def execute(case):
                 if op[1] >= len(disk) or disk[op[1]][0] is None:
                     continue
                 data, src_idx, std, snap_at_dump, wf_at_dump = disk[op[1]]
-                doc = server.call({"data": base64.b64encode(data).decode(), "history": op[2],
-                                   "std": std or "f2003"})
+                if op[2] == "fresh_interpreter":
+                    probe("load_in_fresh_interpreter_other_hashseed")
+                    doc = _fresh_interpreter_load(data, op[3] if len(op) > 3 else 1)
+                else:
+                    doc = server.call({"data": base64.b64encode(data).decode(), "history": op[2],
+                                       "std": std or "f2003"})
                 probe("restart_load_done")
                 if op[2] == "none":
                     probe("load_with_no_parser_created")
